@@ -221,6 +221,19 @@ def _check(prop, tier, seed, scr, t0):
               "replay_cmd": "./run.sh replay " + os.path.relpath(path, VERIF)}
         json.dump(rf, open(path, "w"), indent=1)
         rr = replay_once(scr, path)
+        if rr is not None and rr.get("reproduced") and not rr.get("same_digest"):
+            # The violation shows again in a fresh process but the history differs in detail from
+            # the one recorded during the search. That happens when the tree under test keeps
+            # state in package-level variables across the runs of one worker process (a change may
+            # introduce exactly that: a shared "zero" slice, a cache, a pool): run k of the search
+            # saw what runs < k left behind, the fresh process does not. What must hold is that
+            # the *replay file* reproduces exactly: it is re-recorded from the fresh process and
+            # replayed once more; only if the two fresh replays agree is it a verdict.
+            rf["digest"] = rr["digest"]
+            rf["trace"] = rr.get("trace") or rf["trace"]
+            rf["note"] = "history re-recorded from a fresh process: the tree under test carries state across runs of one process"
+            json.dump(rf, open(path, "w"), indent=1)
+            rr = replay_once(scr, path)
         if rr is None or not rr.get("reproduced") or not rr.get("same_digest"):
             trouble.append("replay of %s did not reproduce identically (%s)" % (name, "no result" if rr is None else "reproduced=%s same_digest=%s" % (rr.get("reproduced"), rr.get("same_digest"))))
             continue
